@@ -20,7 +20,7 @@ META = {
     "outside": ["WHICH spellings are compared is enumeration (the text is concrete for the regex parser): a spelling nobody enumerated is not "
                 "covered; what the solver adds is that each compared pair agrees for every value and base",
                 "respellings of the 21-program practice corpus"],
-    "structure": "rule x statement (exhaustive), seeded compositions",
+    "structure": "rule x statement (exhaustive), rule pairs on one statement (quick: implicit word list x every rule; thorough: all pairs), seeded compositions, symbols exported by a second file with definition and reference respelled independently",
     "stubs": [],
 }
 
